@@ -90,9 +90,11 @@ def _diff_and_patch(
 def _read_old_new_diff_patch(old: Dict[str, Dict], new: Dict[str, Dict], hw: HardwareView, add_comments: bool):
     rb = rulebook.get_rulebook(hw)
     diff_obj = patching.make_diff(old, new, rb, [])
+    # the patch is built from the full diff, like _diff_and_patch does: logic functions read the unchanged rows
+    # of their key, and they may modify the pre they are given
+    patchtree = patch_from_pre(patching.make_pre(diff_obj), hw, rb, add_comments)
     diff_obj = patching.strip_unchanged(diff_obj)
     pre = patching.make_pre(diff_obj)
-    patchtree = patch_from_pre(pre, hw, rb, add_comments)
     return rb, diff_obj, pre, patchtree
 
 
